@@ -11,6 +11,7 @@ import (
 	"math"
 
 	"github.com/db47h/decimal"
+	verifrt "github.com/db47h/decimal/verifrt"
 )
 
 // ---------------------------------------------------------------------------
@@ -131,13 +132,30 @@ func (f *faultyReader) Read(p []byte) (int, error) {
 	return n, nil
 }
 
-// usable exercises a decoded value; any panic is reported.
+// usable exercises a decoded value; any panic, any change of the value caused by
+// unrelated operations, and any failure to round-trip it again is reported.
 func usable(z *decimal.Decimal) (msg string) {
 	defer func() {
 		if r := recover(); r != nil {
 			msg = fmt.Sprintf("using the decoded value panicked: %v", r)
 		}
 	}()
+	before := observe(z)
+	// unrelated operations that take scratch buffers from the pool: a value that
+	// shares memory with the pool would be overwritten by them
+	a := new(decimal.Decimal).SetPrec(80).SetBitsExp([]decimal.Word{7, 1234567890123456789, 5000000000000000001, 3}, 0)
+	b := new(decimal.Decimal).SetPrec(60).SetBitsExp([]decimal.Word{9999999999999999999, 42, 8888888888888888888}, 0)
+	q := new(decimal.Decimal).SetPrec(120)
+	q.Quo(a, b)
+	big12 := make([]decimal.Word, 12)
+	for i := range big12 {
+		big12[i] = decimal.Word(1000000000000000000 + uint64(i)*77)
+	}
+	s := new(decimal.Decimal).SetPrec(500).SetBitsExp(big12, 0)
+	s.Mul(s, s)
+	if after := observe(z); after.String()+after.Digits != before.String()+before.Digits {
+		return fmt.Sprintf("the decoded value changed while unrelated operations ran: %s -> %s", before, after)
+	}
 	one := new(decimal.Decimal).SetUint64(1)
 	t := new(decimal.Decimal).SetPrec(z.Prec() + 1)
 	if e := z.MantExp(nil); e > -2000 && e < 2000 {
@@ -145,11 +163,20 @@ func usable(z *decimal.Decimal) (msg string) {
 	}
 	t.Add(z, z)
 	_ = z.Text('g', -1)
-	if _, err := z.GobEncode(); err != nil {
-		return "re-encoding failed: " + err.Error()
-	}
 	t.Mul(z, z)
 	_ = z.Cmp(one)
+	// an accepted value must round-trip again
+	enc, err := z.GobEncode()
+	if err != nil {
+		return "re-encoding failed: " + err.Error()
+	}
+	var z2 decimal.Decimal
+	if err := z2.GobDecode(enc); err != nil {
+		return fmt.Sprintf("the accepted value %s does not round-trip: decoding its own encoding %x failed: %v", before, enc, err)
+	}
+	if o2 := observe(&z2); o2.String()+o2.Digits != before.String()+before.Digits {
+		return fmt.Sprintf("the accepted value does not round-trip: %s -> %s", before, o2)
+	}
 	return ""
 }
 
@@ -157,6 +184,7 @@ func usable(z *decimal.Decimal) (msg string) {
 // (prec, mode, laden) and applies the under-fault oracle. It returns a
 // violation message or "".
 func decodeCheck(p []byte, prec uint32, mode uint8, laden bool) (msg string, class string, accepted bool) {
+	verifrt.ResetPool() // every case starts from an empty pool: a replay of this case alone sees the same
 	z := new(decimal.Decimal)
 	if laden {
 		// history-laden receiver: holds a long value and spare capacity
